@@ -4,8 +4,9 @@ from __future__ import annotations
 import capture
 
 ID = "C04"
-THEOREMS = ["rewriteCaptured_preserves", "rewriteCaptured_lambda", "rewriteCaptured_sem_both", "rewrite_depends_on_free_names", "bound_names_untouched", "frozen", "nontransportable_refused", "hrun_queries_prefix"]
-LEANCHECKER_MODULES = ["Fadl.Props.C04Sem", "Fadl.Props.C04"]  # re-checked by leanchecker in the thorough tier
+THEOREMS = ["rewriteCaptured_attrs_preserves", "rewriteCaptured_attrs_lambda", "rewriteCaptured_object", "rewriteCaptured_attr_sem_both",
+            "rewriteCaptured_preserves", "rewriteCaptured_lambda", "rewriteCaptured_sem_both", "rewrite_depends_on_free_names", "bound_names_untouched", "frozen", "nontransportable_refused", "hrun_queries_prefix"]
+LEANCHECKER_MODULES = ["Fadl.Props.C04Attr", "Fadl.Props.C04Sem", "Fadl.Props.C04"]  # re-checked by leanchecker in the thorough tier
 RULE = (
     "generated modules (harness/capture.py) whose lambdas mention closure cells, module globals, nested class "
     "constants, module attributes, enum members, data classes and one-line helpers, with binder names (lambda "
@@ -22,8 +23,16 @@ EXPLANATION = (
     "world and every environment that binds the captured names - where no parameter or comprehension variable hides them - "
     "to the values of the snapshot, the rewritten lambda body evaluates (deferred execution) exactly like the original; so "
     "the recorded lambda computes what the Python lambda computes with the values its free variables had at the call. "
-    "PARTIAL: class constants / module attributes / enum members (attribute table) and data-class constructors are outside "
-    "this theorem (oracle only). "
+    "Class constants, nested classes, module attributes and captured objects are inside the theorem since Props/C04Attr.lean: "
+    "rewriteCaptured_attrs_preserves / rewriteCaptured_attrs_lambda / rewriteCaptured_object (induction rewriteCaptured_attr_sem_both) - "
+    "the snapshot may hold classes, modules and other objects (opaque constants), the attribute table says what getattr(object, name) "
+    "gave at the call; with every captured name bound (where not hidden) to what the snapshot stands for and the table consistent "
+    "with those objects (TableOK: getAttr (objs t) a is the value of the table's entry), a rewritten expression that holds no object "
+    "constant any more evaluates exactly like the original, and wherever the rewriting yields the object constant itself the original "
+    "evaluates to that object - so Cfg.threshold, Cfg.Inner.deep, module.attr folded to literals mean what Python's attribute access "
+    "meant when the operator was called. Domain (ObjSnapshot, ConstTable: no inlined helper, no Enum namespace prefix) evaluated on "
+    "every generated case (distribution 'C04Attr domain'). PARTIAL: data-class constructors (ctors) and helpers inserted as "
+    "lambdas (C05's theorem) are outside this theorem. "
     "Theorems: rewrite_depends_on_free_names / bound_names_untouched (the recorded lambda depends on the scope only "
     "through names FREE in the lambda: parameters at any nesting level and comprehension variables are never "
     "replaced), frozen (over histories of bind/del/call: the lambda recorded by a call is computed from the scope "
